@@ -289,3 +289,151 @@ Proof.
   split; [reflexivity|]. split; [vm_compute; reflexivity|]. split; [vm_compute; reflexivity|].
   intros [H _]. vm_compute in H. discriminate H.
 Qed.
+
+(* ------------------------------------------------------------------ list API *)
+(* string scan and global rules of the full pass, from any state *)
+Definition scan_p01 (c : cfg) (it : intr) (inp : inputs) (sc : scanner) : M (ectx * bool) :=
+  bindM (scan_p0 c it inp) (fun _ : unit => scan_p1 c it inp sc).
+
+(* the rules pending when the full pass is interrupted are a prefix of those it ends with, from any
+   state with nothing pending, when the timeout does not fire among the global rules *)
+Lemma full_scan_pend_prefix c j inp sc s0 :
+  c_cb c = false -> pend s0 = [] -> nchecks s0 < j ->
+  (j <= nchecks s0 + i_ac_checks inp \/ nchecks (fst (scan_p01 c Never inp sc s0)) < j) ->
+  exists more, pend (fst (full_scan c Never inp sc s0)) = pend (fst (full_scan c (TimeoutAt j) inp sc s0)) ++ more.
+Proof.
+  intros Hcb Hp0 Hs0 Hwhere. assert (Hit : TimeoutAt j <> Never) by discriminate.
+  rewrite !full_scan_split.
+  destruct Hwhere as [Hac|Hafter].
+  - destruct (good_ac_phase c (TimeoutAt j) Hit (i_ac inp)) as [_ S0].
+    specialize (S0 s0 ltac:(cbn [insync]; lia)).
+    destruct (ac_phase_never_checks c (i_ac inp) s0) as [sN [EN Hn]].
+    pose proof (pendsame_ac_phase c (TimeoutAt j) (i_ac inp) s0) as Hp.
+    destruct S0 as [[Hs1 _]|[Er _]].
+    + exfalso. cbn [insync] in Hs1. rewrite EN in Hs1. cbn [fst] in Hs1. rewrite Hn in Hs1.
+      unfold i_ac_checks in Hac. lia.
+    + destruct (ac_phase c (TimeoutAt j) (i_ac inp) s0) as [s2 r2] eqn:E2. cbn [fst snd] in *. subst r2.
+      rewrite (bind_fail_first (scan_p0 c (TimeoutAt j) inp) _ s0 s2 ETimeout E2).
+      cbn [fst]. rewrite Hp, Hp0. eexists. reflexivity.
+  - set (P := fun it => scan_p01 c it inp sc).
+    assert (HP : Good (TimeoutAt j) (P Never) (P (TimeoutAt j))).
+    { unfold P, scan_p01, scan_p0, scan_p1. apply good_bind; [apply good_ac_phase; exact Hit|]. intros _.
+      apply good_bind; [destruct (c_direct c); [apply good_ret|apply good_send_imports; exact Hit]|]. intros _.
+      apply good_eval_globals. exact Hit. }
+    assert (Hassoc : forall it, bindM (scan_p0 c it inp) (fun _ : unit => bindM (scan_p1 c it inp sc) (scan_rest c it inp sc)) s0
+                                = bindM (P it) (scan_rest c it inp sc) s0).
+    { intros it. unfold P, scan_p01, bindM. destruct (scan_p0 c it inp s0) as [st [u|e]]; reflexivity. }
+    rewrite !Hassoc.
+    destruct HP as [_ SP]. specialize (SP s0 ltac:(cbn [insync]; lia)).
+    assert (Esame : P (TimeoutAt j) s0 = P Never s0 /\ nchecks (fst (P Never s0)) < j).
+    { destruct SP as [[Hs1 Eq]|[_ [Hat [Hck _]]]].
+      - split; [exact Eq|]. exact Hafter.
+      - exfalso. cbn [atpoint] in Hat. fold (P Never) in Hafter. lia. }
+    destruct Esame as [Esame HsyncG]. clear SP.
+    unfold bindM. rewrite Esame.
+    destruct (P Never s0) as [sG rG]. cbn [fst] in HsyncG.
+    destruct rG as [xu|e]; [|exists []; symmetry; apply app_nil_r].
+    exact (scan_rest_prefix c j inp sc xu sG Hcb HsyncG).
+Qed.
+
+(* state in which the full pass starts after an undecided first pass *)
+Definition pass2_start (c : cfg) (inp : inputs) (sc : scanner) : sstate :=
+  fst (clear_pend (fst (eval_without_matches c Never inp sc s_init))).
+
+(* C15, list API, configurations with the first evaluation pass: the rules returned with the Timeout
+   error are a prefix of the rules of the complete scan, provided the timeout does not fire while
+   global rules are being evaluated (in either pass) *)
+Theorem timeout_rules_prefix_noscan c j inp sc :
+  c_cb c = false -> can_noscan c = true -> 1 <= j ->
+  wf_scanner inp sc = true -> ns_bound (s_nns sc) (s_globals sc) -> ns_bound (s_nns sc) (s_rules sc) ->
+  nchecks (fst (pass1_globals c Never inp sc s_init)) < j ->
+  (nchecks (pass2_start c inp sc) < j ->
+   j <= nchecks (pass2_start c inp sc) + i_ac_checks inp
+   \/ nchecks (fst (scan_p01 c Never inp sc (pass2_start c inp sc))) < j) ->
+  exists more, o_rules (run_scan c Never inp sc) = o_rules (run_scan c (TimeoutAt j) inp sc) ++ more.
+Proof.
+  intros Hcb Hns Hj Hw Hbg Hbr Hglob Hsecond.
+  assert (Hit : TimeoutAt j <> Never) by discriminate.
+  pose proof (can_noscan_nm c Hns) as Hnm.
+  (* the complete run *)
+  destruct (do_scan_noscan_list c inp sc Hcb Hns Hw Hbg Hbr s_init eq_refl) as [kN EN].
+  unfold run_scan. fold s_init. rewrite EN. cbn [o_rules pend upd]. rewrite Hcb.
+  rewrite do_scan_noscan_split in EN |- * by exact Hns.
+  assert (HI : forall it, imports_first c it inp s_init = (s_init, inl tt)).
+  { intros it. unfold imports_first, send_imports. rewrite Hcb. destruct (c_direct c); reflexivity. }
+  unfold bindM at 1 in EN. rewrite HI in EN. unfold bindM at 1. rewrite HI.
+  set (P1 := fun it => eval_without_matches c it inp sc).
+  assert (HextP1 : Ext (P1 Never)) by (apply (good_eval_without_matches c (AbortAt 1) ltac:(discriminate) inp sc)).
+  assert (HdsN : ds_rest c Never inp sc s_init = bindM (P1 Never) (after_pass1 c Never inp sc) s_init).
+  { unfold ds_rest, bindM. rewrite (on_timeout_noop (eval_without_matches c Never inp sc)) by apply HextP1. reflexivity. }
+  rewrite HdsN in EN.
+  destruct (good_eval_without_matches c (TimeoutAt j) Hit inp sc) as [_ SP1].
+  specialize (SP1 s_init ltac:(cbn [insync s_init nchecks]; lia)). fold (P1 Never) (P1 (TimeoutAt j)) in SP1.
+  destruct SP1 as [[Hs1 Eq]|[Er [Hat [Hck _]]]].
+  - (* the first pass completes identically *)
+    assert (HdsT : ds_rest c (TimeoutAt j) inp sc s_init
+                   = bindM (P1 Never) (after_pass1 c (TimeoutAt j) inp sc) s_init).
+    { unfold ds_rest, bindM. fold (P1 (TimeoutAt j)).
+      rewrite on_timeout_noop by (rewrite Eq; apply HextP1). rewrite Eq. reflexivity. }
+    rewrite HdsT. unfold bindM in EN |- *.
+    unfold pass2_start in Hsecond. fold (P1 Never) in Hsecond.
+    destruct (P1 Never s_init) as [s1 r1]. cbn [fst] in Hs1, Hsecond.
+    destruct r1 as [r|e]; [|discriminate EN].
+    destruct r; cbn [after_pass1] in EN |- *.
+    + (* decided without the string scan: nothing more is checked *)
+      unfold flush in EN |- *. rewrite Hcb in EN |- *. unfold ret in EN |- *.
+      injection EN as EN. cbn [o_rules]. rewrite EN. cbn [pend upd]. exists []. symmetry. apply app_nil_r.
+    + unfold bindM, clear_pend in EN |- *. unfold clear_pend in Hsecond. cbn [fst nchecks] in Hsecond.
+      set (s1' := {| pend := []; evs := evs s1; nchecks := nchecks s1 |}) in *.
+      destruct (full_scan_pend_prefix c j inp sc s1' Hcb eq_refl Hs1 (Hsecond Hs1)) as [more Em].
+      rewrite EN in Em. cbn [fst pend upd] in Em.
+      destruct (full_scan c (TimeoutAt j) inp sc s1') as [s2 r2]. cbn [fst o_rules] in *.
+      exists more. exact Em.
+  - (* the timeout fires inside the first pass, after the global rules *)
+    cbn [atpoint] in Hat. clear EN HdsN.
+    unfold ds_rest. unfold bindM at 1. fold (P1 (TimeoutAt j)).
+    assert (HP1T : P1 (TimeoutAt j) s_init
+                   = bindM (pass1_globals c (TimeoutAt j) inp sc) (pass1_rest c (TimeoutAt j) inp sc) s_init)
+      by apply pass1_split.
+    destruct (good_eval_globals c (TimeoutAt j) Hit inp (s_globals sc) (ctx0 sc None) false) as [_ SG].
+    specialize (SG s_init ltac:(cbn [insync s_init nchecks]; lia)).
+    fold (pass1_globals c Never inp sc) (pass1_globals c (TimeoutAt j) inp sc) in SG.
+    assert (EG : pass1_globals c (TimeoutAt j) inp sc s_init = pass1_globals c Never inp sc s_init).
+    { destruct SG as [[_ E]|[_ [Hat' [Hck' _]]]]; [exact E|]. exfalso. cbn [atpoint] in Hat'. lia. }
+    pose proof Hw as Hw'. unfold wf_scanner in Hw'. apply andb_true_iff in Hw' as [Hwg Hwr].
+    unfold pass1_globals, ctx0 in *.
+    destruct (eval_globals_pass1 c inp (s_globals sc) (repeat false (s_nns sc)) (repeat false (s_nns sc))
+                (i_matches inp) false s_init eq_refl (fun ns H => H) Hwg ltac:(rewrite repeat_length; exact Hbg))
+      as [k1 [dis1 [reps1 [unk [E1 [Hl1 [Hsub1 Heq]]]]]]].
+    cbn [orb] in E1. cbn [pend s_init app] in E1.
+    rewrite (g_fold_ms _ c inp (s_globals sc) _ (repeat false (s_nns sc)) (i_matches inp)) in Hwr.
+    unfold bindM in HP1T. unfold pass1_globals, ctx0 in HP1T. rewrite EG in HP1T. rewrite E1 in HP1T.
+    unfold pass1_rest in HP1T. cbn [fst snd] in HP1T. unfold all_disabled in HP1T. cbn [x_disabled] in HP1T.
+    destruct (forallb (fun b : bool => b) dis1) eqn:Eall.
+    { exfalso. rewrite HP1T in Er. unfold bindM, clear_pend, ret in Er. cbn [snd] in Er. discriminate. }
+    destruct unk.
+    { exfalso. rewrite HP1T in Er. unfold ret in Er. cbn [snd] in Er. discriminate. }
+    destruct (Heq eq_refl eq_refl) as [Hd Hr]. subst dis1 reps1.
+    set (D := fst (fst (g_fold c inp (repeat false (s_nns sc)) (i_matches inp) (s_globals sc)))) in *.
+    set (m := snd (fst (g_fold c inp (repeat false (s_nns sc)) (i_matches inp) (s_globals sc)))) in *.
+    set (greps := snd (g_fold c inp (repeat false (s_nns sc)) (i_matches inp) (s_globals sc))) in *.
+    set (x := {| x_matches := None; x_prev := []; x_disabled := D |}) in *.
+    unfold bindM in HP1T. rewrite fixup_list' in HP1T. cbn [x_disabled pend upd evs nchecks] in HP1T.
+    set (sF := upd (upd s_init greps k1) (fix_list c (x_disabled x) greps) k1) in *.
+    destruct (goodp_eval_rules c (TimeoutAt j) Hit inp (s_rules sc) x false) as [_ SR].
+    specialize (SR sF ltac:(subst sF; cbn [insync nchecks upd];
+                             pose proof Hglob as Hg'; rewrite E1 in Hg'; cbn [fst nchecks upd] in Hg'; exact Hg')).
+    destruct (eval_rules_pass1 c inp (s_rules sc) D m [] sF Hwr) as [k2 [ok [reps [E2 [_ [rest Hrest]]]]]].
+    fold x in E2.
+    destruct SR as [[_ EqR]|[ErR [more Em]]].
+    { exfalso. rewrite HP1T in Er. rewrite EqR, E2 in Er. unfold ret in Er. cbn [snd] in Er. discriminate. }
+    unfold on_timeout. rewrite HP1T. rewrite E2 in Em. cbn [fst pend upd] in Em.
+    destruct (eval_rules c (TimeoutAt j) inp x (s_rules sc) false sF) as [s2 r2] eqn:ET. cbn [fst snd] in *. subst r2.
+    cbn [ierr]. unfold bindM at 1. unfold flush. rewrite Hcb. unfold ret, fail. cbn [o_rules].
+    (* pend s2 is a prefix of the complete result *)
+    unfold scan_result. fold D m greps.
+    destruct (g_fold c inp (repeat false (s_nns sc)) (i_matches inp) (s_globals sc)) as [[D' m'] g'] eqn:Eg.
+    cbn [fst snd] in *. subst D m greps. rewrite Hnm. cbn [negb andb]. rewrite Eall.
+    exists (more ++ rest). rewrite Hrest. rewrite (app_assoc (pend s2)). rewrite <- Em. subst sF x. cbn [pend upd x_disabled].
+    rewrite app_assoc. reflexivity.
+Qed.
